@@ -3,7 +3,7 @@
 For input TOP (any non-empty str) and each interchange level 1..3 the results of
 truncate_basename, mangle_dir_for_iso9660 and mangle_file_for_iso9660 must lie inside the
 language the acceptance predicates admit; that language is extracted from the predicates
-themselves (_allowed_d1_characters by constant folding, the length constants from the
+themselves (the characters _check_d1_characters admits, the length constants from the
 comparison nodes of _check_iso9660_filename / _check_iso9660_directory), so mangler and
 checker are compared with each other.  Second obligation: on an input already inside the
 legal language every step is the identity.  Level 4 is the identity on any input by
@@ -20,13 +20,12 @@ from ..strdom import S, T, INF, classify
 
 
 def _allowed_classes(ctx):
-    mi = ctx.m.modules['pycdlib']
-    if '_allowed_d1_characters' not in mi.consts:
-        raise AnalysisError('anchor-vanished pycdlib._allowed_d1_characters')
-    try:
-        v = fold(mi.consts['_allowed_d1_characters'], ctx.m, mi)
-    except NotConst:
-        raise AnalysisError('cannot fold _allowed_d1_characters')
+    # the language of the character predicate, in whichever form it is written (see rules/d1.py, which also
+    # decides whether that language is exactly the d-characters)
+    from .d1 import d1_language
+    v, _why, _form, _at = d1_language(ctx)
+    if v is None:
+        raise AnalysisError('cannot extract the accepted characters of _check_d1_characters')
     chars = set(chr(c) for c in v)
     classes = set()
     for cls, rng in (('U', range(ord('A'), ord('Z') + 1)), ('D', range(ord('0'), ord('9') + 1)), ('_', [ord('_')]),
